@@ -203,9 +203,27 @@ func (in *Interp) yield() {
 
 // preempt is called before synchronisation operations.
 func (in *Interp) preempt() {
-	if in.cfg.PreemptSync {
-		in.yield()
+	if !in.cfg.PreemptSync {
+		return
 	}
+	// context bound: voluntary switches at synchronisation operations are limited;
+	// switches forced by blocking are always explored
+	if in.cfg.MaxPreempt > 0 && in.preemptsUsed >= in.cfg.MaxPreempt {
+		return
+	}
+	rs := in.runnableOthers()
+	if len(rs) == 0 {
+		return
+	}
+	c := 0
+	if in.cfg.SchedExplore {
+		c = in.choose(len(rs) + 1)
+	}
+	if c == 0 {
+		return
+	}
+	in.preemptsUsed++
+	in.switchTo(rs[c-1])
 }
 
 // drain runs the other threads until none is runnable.
